@@ -44,8 +44,8 @@ MANIFEST_TEXT = ("Schema 1.x, whole library as ONE transition system (EngineMode
                  "on the raw dump of the real m.db / p.db after every step of interleaved crate / membership / track "
                  "histories.")
 
-PLAN_QUICK = [("mixed", 14, 3), ("members", 16, 2)]
-PLAN_THOROUGH = [("mixed", 30, 6), ("members", 30, 4), ("forest", 20, 2)]
+PLAN_QUICK = [("mixed", 16, 8), ("members", 16, 5), ("forest", 10, 1)]
+PLAN_THOROUGH = [("mixed", 30, 24), ("members", 30, 16), ("forest", 20, 6)]
 
 
 def tie(ctx):
